@@ -35,6 +35,7 @@ class Cx:
         self.rules = {}
         self.undecided = []
         self.notes = []
+        self.selftest = None
         self._cache = {}
 
     def rule(self, rid, kind, text):
@@ -96,6 +97,19 @@ def finish(cx, t0, seed=0):
         print("   NOTE new helper(s) %s inlined into %s" % (sorted(set(h.split("::")[-1] for h in hs)), q_.split("::")[-1]))
     for n in cx.notes:
         print("   NOTE " + n)
+    st = cx.selftest
+    if st:
+        if "error" in st:
+            print("   SELFTEST not run: %s" % st["error"])
+        else:
+            ks = st.get("seeded", [])
+            kb = st.get("benign", [])
+            print("   SELFTEST (the rules against their own decision boundary, scratch copies of this tree): %d/%d seeded changes reported, %d/%d behaviour-preserving patches quiet, %d skipped (do not apply to this tree)" % (
+                sum(1 for x in ks if x["ok"]), len(ks), sum(1 for x in kb if x["ok"]), len(kb), len(st.get("skipped", []))))
+            for x in ks:
+                print("   SELFTEST seeded %-8s %s rules=%s" % (x["patch"], "reported" if x["ok"] else "NOT REPORTED (exit %d)" % x["exit"], x["rules"]))
+            for x in kb:
+                print("   SELFTEST benign %-22s %s" % (x["patch"], "quiet" if x["ok"] else "ALARM (exit %d) %s" % (x["exit"], x["rules"])))
     rc = 0
     new = []
     repdir = os.path.join(os.environ.get("VCHECK_SCRATCH_OUT", VERIF), "reports", prop)
@@ -169,6 +183,7 @@ def write_evidence(cx, t0, seed, nviol, nknown):
             "inlined_helpers": cx.meta.get("inlined_helpers") or {},
             "known_findings_reported": nknown,
             "undecided": cx.undecided,
+            "selftest": cx.selftest,
             "trusted_base": ["rustc nightly MIR (mir-opt-level=0) is a faithful image of the program",
                              "driver/src/main.rs decoding of constants and resolved callees",
                              "DESIGN.md section 3 assumptions A1-A7"],
